@@ -72,7 +72,7 @@ ORACLE_ONLY = {
 
 TB_MARKER = ("trusted: Coq kernel (the property file is closed under the global context); Model/Marker.v is hand-written and tied to dep_logic.markers by the S-mark stream (structural comparison of parse/&/|/only/exclude results, "
              "evaluate on environments; the iteration order of every Python set involved is recorded on the code and given to the model). Shape of the theorems: partial correctness (`f ... = Ret r -> ...`: fuel exhaustion and the "
-             "exceptions of the code are outside), for well-defined operands (wf: `extra` atoms use == / != only, grouped ==/!= atoms sit on string variables - preserved by every operation, it is part of each conclusion), in every environment of a "
+             "exceptions of the code are outside), for well-defined operands (wf: `extra` atoms use == / != only, atoms on string variables use == != in not in - the operators GenericSpecifier accepts -, grouped ==/!= atoms sit on string variables; preserved by every operation, it is part of each conclusion), in every environment of a "
              "class `good` that is a PARAMETER: the merge of two version-like atoms is a parameter too, assumed sound on `good` (vmerge_sound). That hypothesis is (a) discharged inside Coq for the oracle built from the bridge model "
              "(C11_link / C11_link_pv / C11_linked_normaliser in Props/C11.v: good = environments that decide version atoms as packaging's Specifier.contains does on a final interpreter; the oracle declines on the recorded finding tilde-max-post), and (b) checked on every row "
              "the implementation produced (S-vmerge-rows, final-version environments; pre-release interpreters, in-lists and long python_version operands are the recorded findings nonfinal-env / pv-in-substring / pv-long-operand). "
